@@ -386,7 +386,8 @@ class RegexPatternProvider(MorphingProvider):
 
             try:
                 return re_compile(data, flags)
-            except (re.error, OverflowError) as e:  # OverflowError: "the repetition number is too large"
+            # OverflowError: "the repetition number is too large", ValueError: "ASCII and UNICODE flags are incompatible"
+            except (re.error, OverflowError, ValueError) as e:
                 raise ValueLoadError(str(e), data)
 
         return regex_loader
